@@ -67,7 +67,9 @@ impl TypeDependencyGraph {
         let mut visited = HashSet::new();
         let mut visiting = HashSet::new();
 
-        for type_name in types {
+        let mut roots: Vec<&String> = types.iter().collect();
+        roots.sort();
+        for type_name in roots {
             if !visited.contains(type_name) {
                 self.topological_visit(type_name, &mut sorted, &mut visited, &mut visiting);
             }
@@ -101,6 +103,8 @@ impl TypeDependencyGraph {
 
         // Visit dependencies first
         if let Some(deps) = self.dependencies.get(type_name) {
+            let mut deps: Vec<&String> = deps.iter().collect();
+            deps.sort();
             for dep in deps {
                 self.topological_visit(dep, sorted, visited, visiting);
             }
@@ -135,7 +139,10 @@ impl TypeDependencyGraph {
         }
 
         output.push_str("\n🏗️  Discovered Types:\n");
-        for (type_name, struct_info) in &self.resolved_types {
+        let mut resolved_names: Vec<&String> = self.resolved_types.keys().collect();
+        resolved_names.sort();
+        for type_name in resolved_names.iter().copied() {
+            let struct_info = &self.resolved_types[type_name];
             let type_kind = if struct_info.is_enum {
                 "enum"
             } else {
@@ -152,7 +159,8 @@ impl TypeDependencyGraph {
             // Show dependencies
             if let Some(deps) = self.dependencies.get(type_name) {
                 if !deps.is_empty() {
-                    let deps_list: Vec<String> = deps.iter().cloned().collect();
+                    let mut deps_list: Vec<String> = deps.iter().cloned().collect();
+                    deps_list.sort();
                     output.push_str(&format!("  └─ depends on: {}\n", deps_list.join(", ")));
                 }
             }
@@ -160,7 +168,7 @@ impl TypeDependencyGraph {
 
         // Show dependency chains
         output.push_str("\n🔗 Dependency Chains:\n");
-        for type_name in self.resolved_types.keys() {
+        for type_name in resolved_names.iter().copied() {
             self.show_dependency_chain(type_name, &mut output, 0);
         }
 
@@ -180,6 +188,8 @@ impl TypeDependencyGraph {
         output.push_str(&format!("{}├─ {}\n", indent_str, type_name));
 
         if let Some(deps) = self.dependencies.get(type_name) {
+            let mut deps: Vec<&String> = deps.iter().collect();
+            deps.sort();
             for dep in deps {
                 if indent < 3 {
                     // Prevent too deep recursion in visualization
@@ -206,7 +216,9 @@ impl TypeDependencyGraph {
         }
 
         // Add type nodes
-        for type_name in self.resolved_types.keys() {
+        let mut resolved_names: Vec<&String> = self.resolved_types.keys().collect();
+        resolved_names.sort();
+        for type_name in resolved_names {
             output.push_str(&format!("  \"{}\" [color=green];\n", type_name));
         }
 
@@ -229,7 +241,11 @@ impl TypeDependencyGraph {
         }
 
         // Add type dependency edges
-        for (type_name, deps) in &self.dependencies {
+        let mut dependents: Vec<&String> = self.dependencies.keys().collect();
+        dependents.sort();
+        for type_name in dependents {
+            let mut deps: Vec<&String> = self.dependencies[type_name].iter().collect();
+            deps.sort();
             for dep in deps {
                 output.push_str(&format!("  \"{}\" -> \"{}\";\n", type_name, dep));
             }
